@@ -238,7 +238,7 @@ def classify_error(err: tuple[str, str] | None) -> str:
         return "wire"
     if "Externalised payload exceeds max_externalized_response_bytes" in msg:
         return "ext"
-    if ty == "ValueError" and msg.startswith("c16 "):
+    if ty == "ValueError" and "c16 " in msg and msg.endswith(" raises"):
         return "user"
     return "other:" + ty + ":" + msg[:80]
 
